@@ -344,10 +344,15 @@ def get_type_hints(
 def _specialize(t: tp.Any, given: tp.Mapping[tp.Any, tp.Any]) -> tp.Any:
     if t in given:
         return given[t]
-    # A postponed annotation naming the type-variable.
+    # A postponed annotation: the type-variable by name, or an expression using it.
     if isinstance(t, tp.ForwardRef):
         named = {p.__name__: a for p, a in given.items()}
-        return named.get(t.__forward_arg__, t)
+        if t.__forward_arg__ in named:
+            return named[t.__forward_arg__]
+        try:
+            t = refs.evaluate(t)
+        except (NameError, TypeError, AttributeError):
+            return t
     params = getattr(t, "__parameters__", None)
     if params and any(p in given for p in params):
         return t[tuple(given.get(p, p) for p in params)]
